@@ -225,6 +225,10 @@ pub fn out_dir() -> PathBuf {
 pub const PINNED_BASE: u64 = 1 << 40;
 
 pub fn load_pinned(def: &PropertyDef) -> Vec<Case> {
+    // measuring what the sampler alone finds on a deliberately broken tree
+    if std::env::var("VERIF_NO_PINNED").is_ok() {
+        return Vec::new();
+    }
     let dir = verif_dir().join("regress").join(def.id);
     let mut names: Vec<PathBuf> = match std::fs::read_dir(&dir) {
         Ok(rd) => rd.flatten().map(|e| e.path()).filter(|p| p.extension().map(|x| x == "json").unwrap_or(false)).collect(),
